@@ -492,6 +492,11 @@ theorem dequeueScan_matches_source (tg : String → Nat) (t now : Nat) (k : Stri
     decide_eq_true_eq]
   rfl
 
+/-- `Observation`: the pre-build hooks are run under exactly the source's guard — nothing but the presence
+of a previous outcome decides it (in particular not whether the same outcome was applied before) -/
+theorem observation_guard_matches_source (prevNotNil : Bool) (prevLen : Nat) :
+    observationAppliesOutcome prevNotNil prevLen = Gen.Src.c11ObservationAppliesOutcome prevNotNil prevLen := rfl
+
 /-- `Dequeue`, the limit: `if len(proposals) < n { n = len(proposals) }; proposals[:n]` -/
 theorem dequeue_limit_matches_source (cands : List Proposal) (n : Nat) :
     cands.take n = cands.take (if Gen.Src.c11DequeueFewerThanLimit cands.length n then cands.length else n) := by
